@@ -16,7 +16,7 @@ Ev == Tr.events
 
 TraceInit == /\ tid \in 1..Len(Traces) /\ l = 1
              /\ ident = [c \in Caches |-> IF c <= Tr.n THEN Tr.ident[c] ELSE 1]
-             /\ futk  = [c \in Caches |-> IF c <= Tr.n THEN Tr.futk[c] ELSE "none"]
+             /\ futk  = [c \in Caches |-> IF c <= Tr.n THEN Tr.futk[c] ELSE <<>>]
              /\ cls   = [c \in Caches |-> IF c <= Tr.n THEN Tr.cls[c] ELSE "A"]
              /\ InitDyn
 
@@ -58,9 +58,10 @@ Step(e) ==
     [] e.op = "tick"     -> IF \E c \in Caches : task[c] = "armed" /\ due[c] > 0 THEN Tick ELSE Stutter
     [] e.op = "clear"    -> Clear
     [] e.op = "shutdown" -> Shutdown
+    [] e.op = "shutdowntm" -> ShutdownTM
     [] e.op = "penter"   -> PassEnter(e.t, e.f)
     [] e.op = "pexit"    -> PassExit
-    [] e.op = "futext"   -> FutExt(e.c)
+    [] e.op = "futext"   -> FutExt(e.c, e.j)
     [] OTHER             -> FALSE
 
 TraceNext == /\ l <= Len(Ev)
